@@ -37,7 +37,8 @@ def producer_map(g):
 
 
 def depfile_path(e):
-    return key(e) + ".d" if e.get('deps') in ('gcc', 'depfile') else None
+    # e['dfdir']: the depfile lives in a directory of its own (nothing else creates it: ninja has to, before the command starts)
+    return e.get('dfdir', '') + key(e) + ".d" if e.get('deps') in ('gcc', 'depfile') else None
 
 
 def rspfile_path(e):
